@@ -7,6 +7,7 @@ import (
 	"encoding/binary"
 	"errors"
 	"fmt"
+	"math/big"
 
 	"github.com/wollac/iota-crypto-demo/pkg/slip10"
 	"github.com/wollac/iota-crypto-demo/pkg/slip10/eddsa"
@@ -29,7 +30,7 @@ func init() {
 			p := fw.Unpack(key)
 			return map[string]interface{}{"curve": curveName(p[0][0]), "seed": fw.Hex(p[1]), "path": decPath(p[2])}
 		},
-		Required: []string{"node ok", "master retry taken", "child retry taken", "permanent error returned", "undefined derivation refused", "public child ok"},
+		Required: []string{"wrap-around shifts checked", "node ok", "master retry taken", "child retry taken", "permanent error returned", "undefined derivation refused", "public child ok"},
 	})
 }
 
@@ -267,6 +268,11 @@ func judge(class string, key []byte, o *fw.Obs) {
 		if !judgePublic(o, cid, mp, node, mnode, path, step) {
 			return
 		}
+		// candidates I_L for which parse256(I_L) + k_par wraps around the group order: the HMAC
+		// produces them with probability 2^-32 (P-256) / 2^-128 (secp256k1), so they are driven directly
+		if cid <= 1 && !judgeWrap(o, cid, mp, node, mnode, uint64(len(seed))+uint64(step)) {
+			return
+		}
 		if step == len(path) {
 			break
 		}
@@ -304,6 +310,61 @@ func judge(class string, key []byte, o *fw.Obs) {
 		}
 		node, mnode = child, mchild
 	}
+}
+
+// judgeWrap calls Shift on the node's private key with I_L = n - k + d (sum = n + d) and on its public key.
+func judgeWrap(o *fw.Obs, cid byte, mp *slip10m.Params, node *slip10.ExtendedKey, mnode *slip10m.Node, salt uint64) bool {
+	n := mp.W.N
+	k := new(big.Int).SetBytes(mnode.Priv)
+	r := fw.SubRng(int64(salt), "c02-wrap", string(mnode.Priv))
+	var d *big.Int
+	switch r.Intn(4) {
+	case 0:
+		d = big.NewInt(0) // the sum is exactly n: the child key would be zero -> invalid key
+	case 1:
+		d = big.NewInt(int64(1 + r.Intn(3)))
+	default:
+		d = new(big.Int).Rand(r, k) // 0 <= d < k keeps I_L below n
+	}
+	if d.Cmp(k) >= 0 {
+		return true
+	}
+	il := new(big.Int).Sub(n, k)
+	il.Add(il, d)
+	ilb := il.FillBytes(make([]byte, 32))
+	var ck, cp slip10.Key
+	var ek, ep error
+	if !o.Try("Key.Shift (wrap-around candidate)", func() {
+		ck, ek = node.Key.Shift(ilb)
+		cp, ep = node.Key.Public().Shift(ilb)
+	}) {
+		return false
+	}
+	what := fmt.Sprintf("%s Shift with I_L = n - k + %v (k = %x)", curveName(cid), d, mnode.Priv)
+	if d.Sign() == 0 {
+		if !errors.Is(ek, slip10.ErrInvalidKey) || !errors.Is(ep, slip10.ErrInvalidKey) {
+			o.Fail("wrap", "%s: the child key is zero, both sides must report ErrInvalidKey; got private err=%v public err=%v", what, ek, ep)
+			return false
+		}
+		o.Count("wrap-around shifts checked")
+		return true
+	}
+	if ek != nil || ep != nil {
+		o.Fail("wrap", "%s: unexpected errors private=%v public=%v", what, ek, ep)
+		return false
+	}
+	wantPriv := d.FillBytes(make([]byte, 32)) // (k + n - k + d) mod n = d
+	wantPub := mp.W.Compress(mp.W.BaseMul(d))
+	var b1, b2, b3 []byte
+	if !o.Try("Bytes", func() { b1, b2, b3 = ck.Bytes(), ck.Public().Bytes(), cp.Bytes() }) {
+		return false
+	}
+	if !bytes.Equal(b1, wantPriv) || !bytes.Equal(b2, wantPub) || !bytes.Equal(b3, wantPub) {
+		o.Fail("wrap", "%s: private child %x (public %x), public child %x; SLIP-0010 prescribes %x / %x", what, b1, b2, b3, wantPriv, wantPub)
+		return false
+	}
+	o.Count("wrap-around shifts checked")
+	return true
 }
 
 // judgePublic checks Public() of a node and one child derivation from it.
